@@ -272,6 +272,7 @@ type Addition struct {
 	stack           *Stack
 	names           []string
 	newTables       []string
+	newReaders      []*Reader
 	nextUpdateIndex uint64
 }
 
@@ -339,7 +340,7 @@ func (tr *Addition) Add(write func(w *Writer) error) error {
 		return ErrLockFailure
 	}
 
-	if err := tr.stack.checkAddition(tab.Name()); err != nil {
+	if err := tr.stack.checkAddition(tab.Name(), tr.newReaders); err != nil {
 		return err
 	}
 
@@ -351,11 +352,28 @@ func (tr *Addition) Add(write func(w *Writer) error) error {
 		return err
 	}
 	tr.nextUpdateIndex = wr.maxUpdateIndex + 1
+	if !tr.stack.cfg.SkipNameCheck {
+		// Later tables of this transaction are checked against this one too.
+		bs, err := NewFileBlockSource(dest)
+		if err != nil {
+			return err
+		}
+		rd, err := NewReader(bs, fn+".ref")
+		if err != nil {
+			bs.Close()
+			return err
+		}
+		tr.newReaders = append(tr.newReaders, rd)
+	}
 	return nil
 }
 
 // Close releases all non-committed data from the transaction.
 func (tr *Addition) Close() {
+	for _, rd := range tr.newReaders {
+		rd.Close()
+	}
+	tr.newReaders = nil
 	for _, nm := range tr.newTables {
 		os.Remove(filepath.Join(tr.stack.reftableDir, nm))
 	}
@@ -392,11 +410,15 @@ func (tr *Addition) Commit() error {
 	}
 	tr.lockFileName = ""
 	tr.newTables = nil
+	for _, rd := range tr.newReaders {
+		rd.Close()
+	}
+	tr.newReaders = nil
 
 	return tr.stack.reload(true)
 }
 
-func (s *Stack) checkAddition(tabname string) error {
+func (s *Stack) checkAddition(tabname string, pending []*Reader) error {
 	if s.cfg.SkipNameCheck {
 		return nil
 	}
@@ -427,7 +449,25 @@ func (s *Stack) checkAddition(tabname string) error {
 		recs = append(recs, rec)
 	}
 
-	return validateRefRecordAddition(s.Merged(), recs)
+	if len(pending) == 0 {
+		return validateRefRecordAddition(s.Merged(), recs)
+	}
+
+	// Validate against the stack plus the tables already written by
+	// this transaction.
+	var tabs []Table
+	for _, t := range s.stack {
+		tabs = append(tabs, t)
+	}
+	for _, t := range pending {
+		tabs = append(tabs, t)
+	}
+	m, err := NewMerged(tabs, s.cfg.HashID)
+	if err != nil {
+		return err
+	}
+	m.suppressDeletions = true
+	return validateRefRecordAddition(m, recs)
 }
 
 // non-deterministic random generator.
